@@ -1,4 +1,5 @@
 import Tibc.Props.C17
+import Tibc.Expect.Bsc
 #print axioms Tibc.C17.validateBasic_iff
 #print axioms Tibc.C17.extraOk_iff
 #print axioms Tibc.C17.cascadingOk_iff
